@@ -357,8 +357,40 @@ def end_rule(ctx):
     ctx.ob('END', 'covers-all-fields', lb, short_loc(e.span), 'the loop runs while current_idx < record.fields.len(): %s' % lb)
 
 
+RECORD_STATE_WRITERS = {   # reviewed: the only functions that move the record cursor / touch the reorder slots
+    'current_idx': {('assign', 'serialize_record_value')},
+    'buffers': {('mutref', '<KindRecord as Drop>::drop'), ('mutref', 'SerializeStructAsRecordOrMapOrDuration::end'), ('mutref', 'serialize_record_value')},
+    'expected_fields': {('mutref', 'serialize_record_value')},
+}
+
+
+def state_writers(ctx):
+    """the record cursor (current_idx, the expected-field iterator) and the reorder slots are advanced / filled / spliced
+    in one place each; any other function that writes them (a `skip_field` shortcut, a second splice site) bypasses the
+    pairing and splice protocol checked above"""
+    f = ctx.f
+    for fld, reviewed in RECORD_STATE_WRITERS.items():
+        w = set()
+        for b in f.body_list:
+            for bb in b.live_blocks():
+                if b.is_cleanup(bb):
+                    continue
+                for s in b.stmts(bb):
+                    if 'assign' not in s:
+                        continue
+                    if any(isinstance(e, dict) and e.get('f') == fld and (e.get('of') or '').endswith('RecordState') for e in s['assign'].get('p', [])):
+                        w.add(('assign', short_fn(fn_label(b))))
+                    rv = s['rv']
+                    if rv['k'] in ('ref', 'rawptr') and rv.get('mut') and any(isinstance(e, dict) and e.get('f') == fld and (e.get('of') or '').endswith('RecordState') for e in rv['place'].get('p', [])):
+                        w.add(('mutref', short_fn(fn_label(b))))
+        extra = sorted(w - reviewed)
+        ctx.ob('PAIRING', 'state-writers/%s' % fld, not extra and bool(w), None,
+               'functions writing RecordState.%s: %s; beyond the reviewed ones: %s' % (fld, sorted(x[1] for x in w), extra or 'none'))
+
+
 def present(ctx, fi, sv):
     f = ctx.f
+    state_writers(ctx)
     users = {}
     for b in f.body_list:
         for bb, t in b.calls():
